@@ -350,6 +350,40 @@ Definition run_case (ld : loaded) (line : string) : string :=
                 reply id "ok" (match rust_enum_default tags with Some v => dec_of_N v | None => "panic" end)
             | _ => reply id "bad" "args"
             end
+          else if String.eqb op "ref-chunks" then
+            match args with
+            | [v] =>
+                match value_of_sexp v with
+                | Some v' =>
+                    match ref_segments fu fl ty v' with
+                    | Some ss =>
+                        reply id "ok"
+                          (concat_sep "," (map (fun s : seg => dec_of_N (len (fst s)) ++ (if snd s then "s" else "r")) ss))
+                    | None => reply id "none" ""
+                    end
+                | None => reply id "bad" "value"
+                end
+            | _ => reply id "bad" "args"
+            end
+          else if String.eqb op "ref-recode" then
+            match args with
+            | [Atom hex] =>
+                match bytes_of_hex hex with
+                | Some bs =>
+                    match ref_decode_full fu fl ty bs with
+                    | ROk v =>
+                        match ref_encode fu fl ty v with
+                        | Some out => reply id "ok" (hex_of_bytes out)
+                        | None => reply id "none" ""
+                        end
+                    | RFault FUnsupported => reply id "unsupported" ""
+                    | RFault FFuel => reply id "diverge" ""
+                    | RFault f => reply id "err" (fault_name f)
+                    end
+                | None => reply id "bad" "hex"
+                end
+            | _ => reply id "bad" "args"
+            end
           else if String.eqb op "schema" then reply id "ok" (schema_dump fl sch)
           else reply id "bad" "op"
       end
